@@ -1,5 +1,5 @@
 CONSTANTS
-  Universe <- MCUniverseL
+  Universe <- MCUniverse
   Bodies <- MCBodies
   OptSet <- ExtOpts
   MaxTerms = 2
